@@ -272,9 +272,9 @@ def span_params(P, fns):
     return extra
 
 
-def span_rule(ctx, P, fns):
+def span_rule(ctx, P, fns, floor=6):
     extra = span_params(P, fns)
-    r = ctx.rule("SPAN", "text taken from an s3file (not NUL-terminated) is only handed to length-limited primitives (strncmp / memcpy with a limit computed from the span's own end, s3file_copy_*): no strlen / strcmp / strtol / atof / atoi / %s on it, and no strncmp with a constant length unless a dominating test shows that many bytes remain; the raw cursor is not handed out as a C string", floor=6)
+    r = ctx.rule("SPAN", "text taken from an s3file (not NUL-terminated) is only handed to length-limited primitives (strncmp / memcpy with a limit computed from the span's own end, s3file_copy_*): no strlen / strcmp / strtol / atof / atoi / %s on it, and no strncmp with a constant length unless a dominating test shows that many bytes remain; the raw cursor is not handed out as a C string", floor=floor)
     for f in fns:
         sp = span_locals(f, extra.get((f.name, f.unit), ()))
         cursor_reads = [i for i in f.walk() if f.k(i) == "Member" and f.nodes[i].get("rec") == "s3file_s" and f.nodes[i]["field"] == "ptr"]
@@ -291,9 +291,20 @@ def span_rule(ctx, P, fns):
                 if f.k(x) == "Member" and f.nodes[x].get("rec") == "s3file_s" and f.nodes[x]["field"] == "ptr":
                     return True
             return False
+        def terminated(c):
+            """the call is dominated by a test that the string at the cursor ends with a zero byte inside its counted length"""
+            def pred(fn, cc, pol):
+                q = paths.rel(fn, cc, pol, subst=False)
+                return q is not None and q[1] == "==" and "0" in (q[0], q[2]) and re.search(r"->ptr\[\(\w+ - 1\)\]$", q[0] if q[2] == "0" else q[2]) is not None
+            return paths.guarded(f, c, pred)
         for c in f.calls():
             cal = f.nodes[c].get("callee")
             args = f.args(c)
+            if cal in UNBOUNDED or cal in ("strncmp", "memcmp", "strncasecmp", "err_msg", "err_msg_system"):
+                if any(f.k(x) == "Member" and f.nodes[x].get("rec") == "s3file_s" and f.nodes[x]["field"] == "ptr" for a in args for x in f.walk(a)) and terminated(c):
+                    ctx.touch(f)
+                    ctx.ok(r, key(f, "%s@%d" % (cal, f.line(c))), f.where(c), "string at the cursor tested for its terminator")
+                    continue
             if cal and cal not in UNBOUNDED and not cal.startswith("s3file_") and cal not in ("strncmp", "memcmp", "memcpy", "strncasecmp", "err_msg", "err_msg_system", "isspace_c") and unit_of(f) != "s3file.c":
                 for ai, a in enumerate(args):
                     v = f.strip(a)
